@@ -275,7 +275,7 @@ fn source(r: &mut Rng, kind: &str) -> (Vec<(String, String)>, Option<Vec<u8>>) {
 const FOREIGN_KEYS: &[&str] = &[
     "file", "directory", "playlist", "Last-Modified", "duration", "Time", "Range", "Format", "Prio", "Pos", "Id", "songs", "playtime", "sticker", "channel", "message", "tagtype", "updating_db", "size", "type", "state",
     "volume", "repeat", "random", "consume", "single", "song", "songid", "nextsong", "nextsongid", "elapsed", "bitrate", "xfade", "error", "partition", "uptime", "db_playtime", "db_update", "artists", "albums", "Album",
-    "Artist", "Title", "album", "ALBUM", "Date", "x-custom", "Mood", "replay_gain_mode", "changed", "binary", "OK", "a", "Z", "_", "-",
+    "Artist", "Title", "album", "ALBUM", "Date", "Track", "Disc", "track", "Disc", "Track", "x-custom", "Mood", "replay_gain_mode", "changed", "binary", "OK", "a", "Z", "_", "-",
 ];
 
 fn mutate(r: &mut Rng, f: &mut Vec<(String, String)>) -> u64 {
@@ -300,6 +300,19 @@ fn mutate(r: &mut Rng, f: &mut Vec<(String, String)>) -> u64 {
             4 | 5 if !f.is_empty() => {
                 let p = r.below(f.len());
                 f[p].1 = r.pick(VALUE_EDGES).to_string();
+            }
+            6 if !f.is_empty() && r.chance(1, 2) => {
+                // an edge value on a field that is actually parsed (timestamps, numbers, ranges, tags read by accessors)
+                const PARSED: &[&str] = &["Last-Modified", "Track", "Disc", "duration", "Time", "Range", "Prio", "Pos", "Id", "playtime", "songs", "size", "elapsed", "xfade", "volume"];
+                let k = *r.pick(PARSED);
+                let v = r.pick(VALUE_EDGES).to_string();
+                match f.iter_mut().find(|(kk, _)| kk == k) {
+                    Some(e) => e.1 = v,
+                    None => {
+                        let p = r.below(f.len()) + 1;
+                        f.insert(p.min(f.len()), kv(k, v));
+                    }
+                }
             }
             _ => {
                 let p = r.below(f.len() + 1);
